@@ -181,7 +181,7 @@ def error_text(stdout, stderr):
 
 # ------------------------------------------------------------------ running snippets on the real interpreter
 
-def run_snippets_ego(ego, env, workdir, snippets, args, batch=40, timeout=120, stats=None):
+def run_snippets_ego(ego, env, workdir, snippets, args, batch=40, timeout=300, stats=None, nproc=None):
     """Runs every snippet with `ego run <args> file`.  Unguarded snippets are batched; when a program aborts, the
     snippets it completed count, the first incomplete one is re-run ALONE (only an isolated run is taken as an
     error observation) and the rest are re-batched.  Guarded snippets report their own error ("E" line).
@@ -204,7 +204,7 @@ def run_snippets_ego(ego, env, workdir, snippets, args, batch=40, timeout=120, s
             with open(fn, "w") as f:
                 f.write(ego_program(g))
             jobs.append(([ego, "run"] + list(args) + [fn], None, workdir, env))
-        outs = vf.run_many(jobs, timeout=timeout)
+        outs = vf.run_many(jobs, nproc=nproc, timeout=timeout)
         stats["processes"] = stats.get("processes", 0) + len(jobs)
         for g, (rc, so, se) in zip(groups, outs):
             parsed = parse_output(so)
